@@ -6,6 +6,7 @@ import PM.Step
 import PM.Transform
 import Proofs.StepToks
 import Proofs.Undo
+import Proofs.UndoReplace
 namespace PM.C04
 open PM
 
@@ -166,6 +167,97 @@ theorem replace_undo_partial (S : Schema) (doc doc' doc'' : Node) (f t : Nat) (s
       rw [ht2, ht1, hot, ← hlen]
       exact splice_undo (ftoks K) sl.toks f t hft (by rw [ftoks_length]; exact ht)
     rw [ftoks_inj K'' K hn'' hn this]
+
+/- The full statement (the inverse of every applicable replace step applies):
+
+     replace_undo : (hd : Valid S doc) (hn : fnorm doc.kids) (hsn : fnorm sl.content)
+         (h1 : S.apply (.replace f t sl b) doc = .ok doc') (hi : S.invert (.replace f t sl b) doc = .ok inv)
+         (ha : pair-alignment of `f` and `f + sl.size` in `doc'`) : S.apply inv doc' = .ok doc
+
+   is proved below for *flat* replaces (`replace_undo_closed`): the step's slice is closed and the range it
+   replaces lies in one parent with both ends at child boundaries or inside text (the old slice is closed).
+   Missing for open slices / ranges across node boundaries: a structural description of what `threeWay`
+   builds along the two spines (the inverse re-joins nodes of `doc'` that the forward step rebuilt; its
+   `check_join` pairs are symmetric images of pairs the forward step checked, its `close` arguments are
+   contents of nodes of `doc`).  `replace_undo_partial` covers those cases conditionally.  -/
+
+/-- **the inverse of a flat replace step applies and restores the document exactly.**
+    `doc` valid (`Node.check`) and in normal form, the step's slice closed and in normal form, the replaced
+    range flat (its slice is closed: both ends in the same parent, not strictly inside an element child).
+    `ha`: the two ends of the inserted content do not fall between the halves of a surrogate pair of
+    `doc'` (Python strings cannot; the model's unit lists can, when a text ending in a lone high
+    surrogate is merged with one starting with a lone low surrogate). -/
+theorem replace_undo_closed (S : Schema) (doc doc' : Node) (f t : Nat) (sl : Slice) (b : Bool)
+    (inv : Step) (hd : S.checkNode doc = true) (hn : fnorm doc.kids = true)
+    (hsn : fnorm sl.content = true) (hc : sl.openStart = 0 ∧ sl.openEnd = 0)
+    (h1 : S.apply (.replace f t sl b) doc = .ok doc')
+    (hi : S.invert (.replace f t sl b) doc = .ok inv)
+    (hoc : ∀ old, doc.slice f t = .ok old → old.openStart = 0 ∧ old.openEnd = 0)
+    (ha : alignedAt doc'.kids f = true ∧ alignedAt doc'.kids (f + fsize sl.content) = true) :
+    S.apply inv doc' = .ok doc := by
+  obtain ⟨ty, a, m, K, K', rfl, rfl, hr1⟩ :=
+    fromReplace_elem S doc doc' f t sl (apply_replace_fromReplace S doc doc' f t sl b h1)
+  simp only [Node.kids] at hn ha
+  simp only [checkNode_elem, Bool.and_eq_true] at hd
+  simp only [Schema.invert] at hi
+  cases hsl : (Node.elem ty a m K).slice f t with
+  | error e => simp [hsl] at hi
+  | ok old =>
+    simp only [hsl, Except.ok.injEq] at hi
+    subst hi
+    obtain ⟨ho0, ho1⟩ := hoc old hsl
+    have hsz : sl.size.toNat = fsize sl.content := by
+      simp only [Slice.size, hc.1, hc.2]; omega
+    have := replaceKids_undo_closed S ty K K' f t sl old hd.1.1 hd.2 hn hsn hc.1 hc.2 hr1 hsl
+      ho0 ho1 ha.1 ha.2
+    simp [Schema.apply, Schema.fromReplace, Schema.replace, hsz, this, Except.map]
+
+/-! Non-vacuity of `replace_undo_closed`: in `doc(p("ab"), p("c"))` the step "replace 2 … 3 by the closed
+    slice `x`" gives `doc(p("ax"), p("c"))`; its inverse "replace 2 … 3 by `b`" applies and restores. -/
+section Example
+/-- doc(para*), para(text*), text -/
+private def tinyS : Schema :=
+  { nodes := #[
+      { name := "doc", isText := false, isInline := false, isLeaf := false, isAtom := false,
+        inlineContent := false, isolating := false, defining := false, code := false,
+        dfa := #[⟨true, [(1, 0)]⟩], markSet := some [], attrs := [] },
+      { name := "para", isText := false, isInline := false, isLeaf := false, isAtom := false,
+        inlineContent := true, isolating := false, defining := false, code := false,
+        dfa := #[⟨true, [(2, 0)]⟩], markSet := none, attrs := [] },
+      { name := "text", isText := true, isInline := true, isLeaf := true, isAtom := true,
+        inlineContent := false, isolating := false, defining := false, code := false,
+        dfa := #[⟨true, []⟩], markSet := some [], attrs := [] }],
+    marks := #[], top := 0, textTy := 2 }
+
+private def tinyDoc : Node :=
+  .elem 0 [] [] [.elem 1 [] [] [.text [97, 98] []], .elem 1 [] [] [.text [99] []]]
+private def tinyDoc' : Node :=
+  .elem 0 [] [] [.elem 1 [] [] [.text [97, 120] []], .elem 1 [] [] [.text [99] []]]
+private def tinySl : Slice := ⟨[.text [120] []], 0, 0⟩
+
+private theorem tiny_fwd : tinyS.apply (.replace 2 3 tinySl false) tinyDoc = .ok tinyDoc' := by
+  have hv : tinyS.validContent 1 [Node.text [97, 120] []] = true := by decide
+  simp [Schema.apply, Schema.fromReplace, Schema.replace, tinyDoc, tinySl, replaceKids, inRange,
+    depthAt, Slice.wf, spineL, spineR, outer, atLevel, fcut, fcutLoop, cutText, splitOk, isHigh, isLow,
+    fappend, addNode, Except.map, tinyDoc', hv]
+
+private theorem tiny_inv : tinyS.invert (.replace 2 3 tinySl false) tinyDoc
+    = .ok (.replace 2 3 ⟨[.text [98] []], 0, 0⟩ false) := by
+  simp [Schema.invert, Node.slice, Node.kids, tinyDoc, sliceKids, inRange, sliceScan, sliceHere, fcut,
+    fcutLoop, cutText, splitOk, isHigh, isLow, depthAt, tinySl, Slice.size]
+
+example : tinyS.apply (.replace 2 3 ⟨[.text [98] []], 0, 0⟩ false) tinyDoc' = .ok tinyDoc := by
+  refine replace_undo_closed tinyS tinyDoc tinyDoc' 2 3 tinySl false _ ?_ ?_ ?_ ⟨rfl, rfl⟩
+    tiny_fwd tiny_inv ?_ ?_
+  · simp [tinyDoc, Schema.checkNode, Schema.checkKids]; decide
+  · simp [tinyDoc, Node.kids, fnorm, fnormKids, Node.norm, chainOk, adjOk]
+  · simp [tinySl, fnorm, fnormKids, Node.norm, chainOk]
+  · intro old h
+    simp [Node.slice, Node.kids, tinyDoc, sliceKids, inRange, sliceScan, sliceHere, fcut, fcutLoop,
+      cutText, splitOk, isHigh, isLow, depthAt] at h
+    subst h; exact ⟨rfl, rfl⟩
+  · simp [tinyDoc', Node.kids, tinySl, alignedAt, splitOk, isHigh, isLow]
+end Example
 
 /-- **exact undo of a replace-around step** (same proviso) -/
 theorem replaceAround_undo_partial (S : Schema) (doc doc' doc'' : Node) (f t gf gt : Nat) (sl : Slice)
